@@ -144,7 +144,7 @@ CFGSETS = {
     "similar": {
         "plain": [(False, False, False)],
         "filt": [],
-        "rd": [(v, it, False) for v in ("default", "find_copies_harder", "rewrite_threshold") for it in (False, True)],
+        "rd": [("default", False, False), ("default", True, False), ("find_copies_harder", False, False), ("rewrite_threshold", False, False)],
         "rdfilt": [],
         "none_id": False,
         "patch": "two",
@@ -360,7 +360,7 @@ class Info:
             raise HarnessError("reference model: apply(diff({}, L)) != L")
 
 
-def put_reference_trees(st, info):
+def put_reference_trees(st, info, acc=None):
     """Store git's exact tree objects (reference bytes, verified by mktree) so that the diff and patch
     oracles do not depend on commit_tree."""
     for path in info.built.order:
@@ -369,7 +369,11 @@ def put_reference_trees(st, info):
             continue
         t = st.OB.Tree.from_string(body)
         if t.id != oid:
-            raise HarnessError("Tree.from_string(reference bytes).id differs from the reference id")
+            if acc is None:
+                raise HarnessError("Tree.from_string(reference bytes).id differs from the reference id")
+            acc.violation("build:Tree.from_string(%s):id-of-git-tree-bytes-differs-from-git" % st.impl,
+                          "%s: tree %r parsed from git's bytes has id %s, git says %s" % (show(info.L), path, t.id.decode(), oid.decode()),
+                          rp(case_listing, st.impl, info.L))
         st.store.add_object(t)
         st.have.add(oid)
 
@@ -651,9 +655,9 @@ def classify(got, exp_recs, exp_unch, ia, ib, it, cts, wu, filters, allow_rename
         return "malformed:" + bad
     olds, news = sides(got)
     if len(set(olds)) != len(olds):
-        return "path-mentioned-twice-on-old-side"
+        return "path-twice-on-old-side"
     if len(set(news)) != len(news):
-        return "path-mentioned-twice-on-new-side"
+        return "path-twice-on-new-side"
     fa = (ia.fta_root if root else ia.fta) if it else ia.fa
     fb = (ib.fta_root if root else ib.fta) if it else ib.fa
     for t, o, n in got:
@@ -665,14 +669,14 @@ def classify(got, exp_recs, exp_unch, ia, ib, it, cts, wu, filters, allow_rename
         for t, o, n in got:
             for side in (o, n):
                 if side is not None and not gt.matches(side[0], filters, gt.is_dir_mode(side[1])):
-                    above = any(f.startswith(side[0] + b"/") for f in filters)
-                    return "reports-change-outside-path-filter:" + ("non-directory-at-a-parent-of-the-filter" if above else "unrelated-path")
+                    above = any(f.startswith(side[0] + b"/") for f in filters) and (side[0] in ia.dirs or side[0] in ib.dirs)
+                    return "outside-path-filter:" + ("file-where-other-tree-has-directory-above-filter" if above else "unrelated-path")
     for t, o, n in got:
         if t in ("rename", "copy"):
             if (o[1] & gt.IFMT) != (n[1] & gt.IFMT):
                 return "%s-across-file-types" % t
             if not gt.is_dir_mode(o[1]) and o[2] != n[2] and {o[2], n[2]} != {X, Z}:
-                return "%s-between-contents-that-share-nothing" % t
+                return "%s-between-unrelated-contents" % t
     # the statement's patch oracle
     target = dict(ib.fa)
     if filters is not None:
@@ -693,11 +697,11 @@ def classify(got, exp_recs, exp_unch, ia, ib, it, cts, wu, filters, allow_rename
                 got_files[p] = (o, n)
         for p in sorted(exp_files):
             if p not in got_files:
-                return "applied-diff-differs-from-second-tree:missed-change"
+                return "patched-A-differs-from-B:missed-change"
         for p in sorted(got_files):
             if p not in exp_files:
-                return "applied-diff-differs-from-second-tree:spurious-change"
-        return "applied-diff-differs-from-second-tree:wrong-entry"
+                return "patched-A-differs-from-B:spurious-change"
+        return "patched-A-differs-from-B:wrong-entry"
     if wu:
         if unch != sorted(exp_unch):
             miss = [u for u in exp_unch if u not in unch]
@@ -726,19 +730,21 @@ def classify(got, exp_recs, exp_unch, ia, ib, it, cts, wu, filters, allow_rename
 
 
 def flagstr(impl, wu=False, it=False, cts=False, filt=False, none_id=False, rd=None):
+    """The part of a key between the parentheses: implementation + the non-default arguments (kept short: the
+    runner cuts replay file names at 80 characters)."""
     parts = [impl]
-    if rd is not None:
-        parts.append("rename_detector" if rd == "default" else "rename_detector:" + rd)
+    if rd is not None and rd != "default":
+        parts.append(rd)
     if it:
-        parts.append("include_trees")
+        parts.append("trees")
     if cts:
-        parts.append("change_type_same")
+        parts.append("type_same")
     if wu:
-        parts.append("want_unchanged")
+        parts.append("unchanged")
     if filt:
         parts.append("paths")
     if none_id:
-        parts.append("tree-id-None")
+        parts.append("id-None")
     return ",".join(parts)
 
 
@@ -908,6 +914,8 @@ def eval_pair(acc, st, cfg, ia, ib, gitres, k):
         pred = classify(got, recs, unch, ia, ib, it, False, wu, None, True, root=root)
         if any(t == "copy" and o[0] == n[0] for t, o, n in got):
             acc.outcome("P:rd:%s:copy-onto-its-own-path" % variant)
+        if any(t in ("rename", "copy") and o[2] != n[2] for t, o, n in got):
+            acc.outcome("P:rd:%s:inexact-rename-or-copy-found" % variant)
         if pred:
             viol("diff", "RenameDetector", flags, pred, "changes_with_renames = %r; plain diff %r" % (got, recs))
         gk = gitkey_rd(variant, it)
@@ -971,7 +979,7 @@ def eval_pair(acc, st, cfg, ia, ib, gitres, k):
     bad = sorted({r for r in results if r != "ok"})
     feat = patch_feature(ia, ib)
     if bad:
-        pred = {"wrong": "result-differs-from-rebuilt-tree", "wrong-id-same-listing": "result-is-a-different-tree-object-for-the-same-listing"}.get(bad[0], bad[0])
+        pred = {"wrong": "result-differs-from-rebuilt-tree", "wrong-id-same-listing": "different-tree-object-for-the-same-listing"}.get(bad[0], bad[0])
         if "ok" in results:
             pred += ":order-dependent"
         viol("patch", "commit_tree_changes", impl, pred + "@" + feat, "changes %r %s" % ([(p.decode(), m and "%o" % m) for p, m, _s in bad_order], detail))
@@ -987,8 +995,8 @@ def case_pair(acc: Acc, impl, cfgname, A, B):
     ia = Info(tuple(tuple(e) for e in A))
     ib = Info(tuple(tuple(e) for e in B))
     git_write_trees(st, [ia.built, ib.built])
-    put_reference_trees(st, ia)
-    put_reference_trees(st, ib)
+    put_reference_trees(st, ia, acc)
+    put_reference_trees(st, ib, acc)
     gitres = {}
     for gk in needed_gitkeys(cfg):
         flags, filters = git_flags(gk)
@@ -999,13 +1007,13 @@ def case_pair(acc: Acc, impl, cfgname, A, B):
 # --------------------------------------------------------------------------- task plumbing
 
 
-def family_infos(st, fam):
+def family_infos(st, fam, acc=None):
     name, n, kinds, cfgname = fam
     if name not in st.fams:
         infos = [Info(L) for L in listings(n, kinds)]
         git_write_trees(st, [i.built for i in infos])
         for i in infos:
-            put_reference_trees(st, i)
+            put_reference_trees(st, i, acc)
         st.fams[name] = infos
     return st.fams[name]
 
@@ -1016,7 +1024,9 @@ def work(task):
     st = ensure_impl(impl)
     if kind == "listings":
         infos = [Info(L) for L in items]
-        acc.count("git_trees_written", git_write_trees(st, [i.built for i in infos]))
+        git_write_trees(st, [i.built for i in infos])
+        # every non-empty tree of every listing has had its id confirmed by git mktree (once per worker and distinct tree)
+        acc.count("tree_ids_confirmed_by_git_mktree", sum(1 for i in infos for t in i.built.trees.values() if t[2]))
         for info in infos:
             _listing_checks(acc, st, info)
         if infos:
@@ -1025,7 +1035,7 @@ def work(task):
         fam = params
         cfg = CFGSETS[fam[3]]
         _S["cfgname"] = fam[3]
-        infos = family_infos(st, fam)
+        infos = family_infos(st, fam, acc)
         rows = items
         pairs = [(infos[a].tid, infos[b].tid) for a in rows for b in range(len(infos))]
         gitres = {}
@@ -1061,8 +1071,8 @@ def run(ctx):
     nmax = listing_bound(q)
     Ls = listings(nmax, ALL8)
     fams = families(q)
-    sizes = {}
-    total_pairs = 0
+    sizes = {f[0]: len(listings(f[1], f[2])) for f in fams}
+    total_pairs = sum(v * v for v in sizes.values())
     for impl in IMPLS:
         tasks = []
         lst = ctx.order(Ls)
@@ -1070,9 +1080,7 @@ def run(ctx):
             tasks.append((impl, "listings", None, part))
         for fam in fams:
             name, n, kinds, cfgname = fam
-            N = len(listings(n, kinds))
-            sizes[name] = N
-            total_pairs += N * N
+            N = sizes[name]
             per_pair = len(CFGSETS[cfgname]["plain"]) + len(CFGSETS[cfgname]["filt"]) + 2 * len(CFGSETS[cfgname]["rd"]) + len(CFGSETS[cfgname]["rdfilt"]) + 4
             rows_per_task = max(1, min(N, int(25000 / (N * per_pair)) or 1))
             rows = ctx.order(range(N))
@@ -1080,9 +1088,7 @@ def run(ctx):
                 tasks.append((impl, "pairs", fam, rows[i : i + rows_per_task]))
         tasks = ctx.order(tasks)
         tasks.sort(key=lambda t: 0 if t[1] == "listings" else 1)  # simplest first (order only)
-        if ctx.jobs <= 1 or len(tasks) <= 1:
-            # pmap would run in this process: still fine, ensure_impl re-binds between the passes
-            pass
+        # with --jobs 1 pmap runs in this process: ensure_impl then re-binds dulwich between the passes
         pmap_acc(work, tasks, ctx.acc, jobs=ctx.jobs)
     for _, cases in ctx.acc.viol.values():  # shortest recorded example first (presentation only)
         cases.sort(key=lambda c: (len(c["summary"]), c["summary"]))
@@ -1108,17 +1114,20 @@ def run(ctx):
             "changes) == tree(B) for all orders of <=3 changes (else 4 orders).  evaluations = builds + tree_changes calls + "
             "commit_tree_changes calls."
             % (len(Ls), nmax, [p.decode() for p in PATHS], sum(_fact(len(L)) for L in Ls), len(LOOKUP_PATHS),
-               [(f[0], "<=%d entries" % f[1], list(f[2]), f[3]) for f in fams], sizes, total_pairs // 2, len(F1), len(F2))
+               [(f[0], "<=%d entries" % f[1], list(f[2]), f[3]) for f in fams], sizes, total_pairs, len(F1), len(F2))
         ),
         exhaustive=True,
         bounds={
             "listing_max_entries": nmax, "listings": len(Ls), "paths": len(PATHS), "kinds": len(ALL8),
             "families": {f[0]: {"max_entries": f[1], "kinds": list(f[2]), "configs": f[3], "listings": sizes[f[0]], "pairs": sizes[f[0]] ** 2} for f in fams},
-            "pairs_per_pass": total_pairs // 2, "passes": list(IMPLS),
+            "pairs_per_pass": total_pairs, "passes": list(IMPLS),
             "config_sets": {k: {"plain": len(v["plain"]), "filters": len(v["filt"]), "rename": len(v["rd"]), "rename_x_filters": len(v["rdfilt"]), "patch_orders": v["patch"]} for k, v in CFGSETS.items()},
         },
     )
     ctx.coverage["rust_build"] = {k: v for k, v in paths.items()}
+    ctx.coverage["pure_python_pass"] = (
+        "separate forked worker processes; extension imports blocked before dulwich.objects / diff_tree were imported"
+        if ctx.jobs > 1 else "same process (--jobs 1): dulwich modules purged and re-imported with the extension imports blocked")
     ctx.assumptions += [
         "C git 2.39.5 is the second oracle; engines/refmodels/gittree.py must agree with it on every listing (mktree ids) "
         "and on every pair and flag set that has a git equivalent (diff-tree), else HARNESS-ERROR",
@@ -1127,7 +1136,11 @@ def run(ctx):
         "the ORDER in which tree_changes / iter_tree_contents yield is not judged (the statement is about sets); whether identical "
         "subtrees are pruned and how rename pairing compares with git -C are recorded as informational outcome classes only",
         "rename detection is a heuristic: judged only by what the statement fixes (patching works, paths unique per side, "
-        "mentioned entries exist, taking renames/copies apart gives git's raw diff)",
+        "mentioned entries exist, taking renames/copies apart gives git's raw diff, a path filter is honoured) plus two facts "
+        "that hold for every git raw diff whatever the heuristics: no rename/copy between different file types, none between "
+        "blobs that share nothing",
+        "with include_trees dulwich also reports the root tree as an entry with path b'' (its documented convention); that "
+        "entry is accepted but not demanded, git has no such line",
         "gitlink ids are commit ids that exist in no store (as in a real superproject); blobs X and Y share no line, Z shares 9 of 10 lines with X",
     ]
 
